@@ -35,19 +35,19 @@ type Obligation struct {
 
 // Run collects what one invocation decided.
 type Run struct {
-	Property   string
-	Tier       string
-	Obls       []Obligation
-	Universe   map[string]int // rule -> number of instances found
-	Floors     map[string]int
-	Notes      []string
-	Funcs      map[string]bool // functions analysed
-	CallSites  int
-	Configs    []string
-	Controls   []string // positive controls that fired as required
-	cur        *Program
-	fatal      []string
-	start      time.Time
+	Property  string
+	Tier      string
+	Obls      []Obligation
+	Universe  map[string]int // rule -> number of instances found
+	Floors    map[string]int
+	Notes     []string
+	Funcs     map[string]bool // functions analysed
+	CallSites int
+	Configs   []string
+	Controls  []string // positive controls that fired as required
+	cur       *Program
+	fatal     []string
+	start     time.Time
 }
 
 func NewRun(prop, tier string) *Run {
